@@ -11,6 +11,7 @@ declare -A PKG=(
  [sender-cache-ignores-signer]=./types/
  [receipt-logs-in-map-order]=./mainchain/blockchain/
  [seeded-rebloom-skips-deleted-slots]=./kai/state/snapshot/
+ [seeded-j-reverted-resurrection-drops-destruct-marker]=./kai/state/
  [seeded-i-snapshot-not-covered-yet-treated-as-absent]=./kai/state/
  [seeded-g-difflayer-destruct-checked-before-account-data]=./kai/state/snapshot/
  [seeded-f-difftodisk-keeps-destructed-slots-in-cache]=./kai/state/snapshot/
